@@ -153,7 +153,7 @@ Definition report_of (vr : value_result) (l : list report) : list report :=
 (* updateDirWatches after the fix: the watch on the directory of the cleaned
    config path is never removed *)
 Definition update_dir_watches (cfg : path) (addok : bool) (old new : path) (w : list path) : list path :=
-  if path_eqb old new then w
+  if path_eqb old new then (if addok then wadd new w else w)   (* the watch is refreshed: Add is idempotent *)
   else if negb addok then w
   else let w1 := wadd new w in
        if path_eqb old (dir cfg) then w1 else wremove old w1.
